@@ -198,6 +198,13 @@ func (g *Gateway) handleLegacyProtocol(w http.ResponseWriter, r *http.Request, t
 
 		c.Set(t.RDGId, t, cache.DefaultExpiration)
 	} else if r.Method == MethodRDGIN {
+		if t.transportOut == nil {
+			// the packet loop writes its responses to the outgoing channel
+			log.Printf("RDG_IN_DATA for connection %s without an RDG_OUT_DATA channel", t.RDGId)
+			http.Error(w, "no outgoing channel for this connection", http.StatusBadRequest)
+			return
+		}
+
 		legacyConnections.Inc()
 		defer legacyConnections.Dec()
 
